@@ -1,0 +1,70 @@
+//go:build verif
+
+// Contracts for contract-based deductive verification (see /verif/DESIGN.md).
+// Comments only; compiled only with the build tag `verif`.
+//
+// C27 / C06: decoding a message that came off the wire never panics.  The generated
+// protobuf Unmarshal is outside the verifier's reach; what it guarantees is assumed
+// in the preconditions below and nothing more: a message value it produced is
+// non-nil at the top, *repeated* sub-messages have non-nil elements, and every
+// *singular* sub-message may be absent (nil).  Under exactly these assumptions the
+// hand-written decoders must not dereference nil or index out of range: every
+// such site is a generated no-panic obligation.
+
+package proto
+
+//@ contract decodeNode props C27,C06
+//@   requires m != nil
+//@   modifies m.ID, m.URI, m.IsCoordinator, m.State
+//@ contract decodeNodes props C27,C06
+//@   requires len(m) >= len(a)
+//@   loop 1 invariant 0 <= $i + 1 && $i + 1 <= len(a)
+//@ contract decodeClusterStatus props C27,C06
+//@   requires m != nil
+//@ contract decodeField props C27,C06
+//@   requires f != nil && m != nil
+//@   modifies m.Name, m.Options, m.Views
+//@   loop 1 invariant 0 <= $i + 1 && $i + 1 <= len(f.Views) && fresh(m.Views)
+//@ contract decodeFields props C27,C06
+//@   requires len(m) >= len(fs) && (forall i :: 0 <= i && i < len(fs) ==> fs[i] != nil)
+//@   loop 1 invariant 0 <= $i + 1 && $i + 1 <= len(fs) && (forall k :: 0 <= k && k < len(fs) ==> fs[k] != nil)
+//@ contract decodeIndex props C27,C06
+//@   requires idx != nil && m != nil && (forall i :: 0 <= i && i < len(idx.Fields) ==> idx.Fields[i] != nil)
+//@   modifies m.Name, m.Fields
+//@ contract decodeSchema props C27,C06
+//@   requires m != nil
+//@   modifies m.Indexes
+//@   requires s != nil ==> (forall i :: 0 <= i && i < len(s.Indexes) ==> s.Indexes[i] != nil)
+//@ contract decodeResizeSource props C27,C06
+//@   requires rs != nil && m != nil
+//@   modifies m.Node, m.Index, m.Field, m.View, m.Shard
+//@ contract decodeResizeSources props C27,C06
+//@   requires len(m) >= len(srcs) && (forall i :: 0 <= i && i < len(srcs) ==> srcs[i] != nil)
+//@   loop 1 invariant 0 <= $i + 1 && $i + 1 <= len(srcs) && (forall k :: 0 <= k && k < len(srcs) ==> srcs[k] != nil)
+//@ contract decodeIndexStatuses trusted props C27,C06
+//@   requires forall i :: 0 <= i && i < len(a) ==> a[i] != nil
+//@   modifies nothing
+//@ contract decodeNodeStatus props C27,C06
+//@   requires m != nil
+//@   requires pb != nil ==> (forall i :: 0 <= i && i < len(pb.Indexes) ==> pb.Indexes[i] != nil)
+//@   requires pb != nil && pb.Schema != nil ==> (forall i :: 0 <= i && i < len(pb.Schema.Indexes) ==> pb.Schema.Indexes[i] != nil)
+//@ contract decodeResizeInstructionComplete props C27,C06
+//@   requires pb != nil && m != nil
+//@ contract decodeSetCoordinatorMessage props C27,C06
+//@   requires pb != nil && m != nil
+//@ contract decodeUpdateCoordinatorMessage props C27,C06
+//@   requires pb != nil && m != nil
+//@ contract decodeNodeEventMessage props C27,C06
+//@   requires pb != nil && m != nil
+//@ contract decodeCreateIndexMessage props C27,C06
+//@   requires pb != nil && m != nil
+//@ contract decodeCreateFieldMessage props C27,C06
+//@   requires pb != nil && m != nil
+//@ contract decodeQueryResult props C27,C06
+//@   requires pb != nil && (forall i :: 0 <= i && i < len(pb.Pairs) ==> pb.Pairs[i] != nil)
+//@ contract decodePair props C27,C06
+//@   requires pb != nil
+//@ contract decodeValCount props C27,C06
+//@   requires true
+//@ contract decodeRowIdentifiers props C27,C06
+//@   requires true
